@@ -91,6 +91,9 @@ pub struct Ctx<'a> {
     pub rng: Rng,
     pub rep: &'a mut Report,
     pub thorough: bool,
+    /// miniature cases: set when the monitor is compiled for the Miri interpreter (about four orders
+    /// of magnitude slower), so that every case still finishes in seconds
+    pub tiny: bool,
     pub stream: u64,
     pub index: u64,
     pub verbose: bool,
